@@ -428,6 +428,19 @@ func TestVerifC15(t *testing.T) {
 	}
 	vMakeAssets(t)
 	c15Pages := c15MakePages(t)
+	// the same pages without 504.html: custom pages for some statuses only
+	c15PagesPartial := filepath.Join(t.TempDir(), "pages_c15_partial")
+	os.MkdirAll(c15PagesPartial, 0o700)
+	if entries, err := os.ReadDir(c15Pages); err == nil {
+		for _, e := range entries {
+			if e.Name() == "504.html" {
+				continue
+			}
+			if b, err := os.ReadFile(filepath.Join(c15Pages, e.Name())); err == nil {
+				os.WriteFile(filepath.Join(c15PagesPartial, e.Name()), b, 0o600)
+			}
+		}
+	}
 	oldLog := slog.Default()
 	slog.SetDefault(slog.New(slog.NewTextHandler(io.Discard, nil)))
 	defer slog.SetDefault(oldLog)
@@ -545,6 +558,9 @@ func TestVerifC15(t *testing.T) {
 		so := ServiceOptions{Hosts: []string{s.host}}
 		if vBool(m["custom"]) {
 			so.ErrorPagePath = c15Pages
+			if vBool(m["partial"]) {
+				so.ErrorPagePath = c15PagesPartial
+			}
 		}
 		to := TargetOptions{
 			HealthCheckConfig:   HealthCheckConfig{Path: DefaultHealthCheckPath, Interval: time.Hour, Timeout: 5 * time.Second},
